@@ -227,6 +227,7 @@ class Shadow:
         self.shadow = {}      # res -> plain data | MISSING
         self.virtual = {}     # res -> constructor data of an object whose resource is missing
         self.unjudged = set() # resources removed from outside and not re-established yet
+        self.badroot = set()  # resources whose document has the wrong container kind at the root
         self.violations = []  # (property, message)
         self.stats = {"ops": 0, "mutators": 0, "deep": 0, "errors": 0, "detached": 0, "rejected": 0}
 
@@ -308,6 +309,15 @@ class Shadow:
             self.shadow[op[1]] = copy.deepcopy(op[2])
             self.virtual.pop(op[1], None)
             self.unjudged.discard(op[1])
+            # a document whose ROOT is of the other container kind cannot be merged: every loading
+            # operation through the objects of this resource raises until a mergeable document is
+            # back (outside write, or a root-level clear()/reset(), which do not load).  Results are
+            # not judged meanwhile (reads must still not write); afterwards everything is judged again.
+            kinds = {isinstance(o, self.ns.SyncedDict) for o, r in self.objs if r == op[1]}
+            if kinds and isinstance(op[2], dict) not in kinds:
+                self.badroot.add(op[1])
+            else:
+                self.badroot.discard(op[1])
             return
         if kind == "extdel":
             # An outside writer removes the resource.  The library treats a missing resource as "no
@@ -319,6 +329,7 @@ class Shadow:
             self.world.delete(op[1])
             self.shadow[op[1]] = MISSING
             self.unjudged.add(op[1])
+            self.badroot.discard(op[1])
             self.virtual.pop(op[1], None)
             return
         assert kind == "call"
@@ -330,6 +341,24 @@ class Shadow:
         self.stats["ops"] += 1
         if is_mut:
             self.stats["mutators"] += 1
+        if res in self.badroot:
+            before_file = self.world.read(res)
+            try:
+                from proto import apply_call
+                real = apply_call(obj, name, args)
+            except Exception:  # noqa: BLE001
+                real = None
+            if isinstance(real, (list, tuple)):
+                for x in real:
+                    self._register(x)
+            self._register(real)
+            after_file = self.world.read(res)
+            if not is_mut and not strict_eq(before_file, after_file):
+                self.v("C17", "read %s changed the backend" % name)
+            if after_file is not MISSING and isinstance(after_file, dict) == isinstance(root, self.ns.SyncedDict):
+                self.shadow[res] = copy.deepcopy(after_file)
+                self.badroot.discard(res)
+            return
         if res in self.unjudged:
             before_file = self.world.read(res)
             try:
